@@ -272,7 +272,14 @@ def strategy():
     pm = gen.pep_model(max_len=20, allow_empty=False)
     rich = gen.pep_model(alphabet='ACDEGKMST', min_len=3, max_len=12, allow_empty=False,
                          mod_list=st.lists(gen.mod(), min_size=2, max_size=3))
-    return st.fixed_dictionaries({'pep': st.one_of(pm, rich), 'pick': st.lists(st.integers(0, 60), min_size=4, max_size=4),
+    # the same number spelled as an integer and as a decimal, with different multipliers, at one position (the library's
+    # modification ordering is not a total order on these, so anything that sorts them depends on the order written)
+    twin = st.sampled_from([['100', 2], ['100.0', 1], ['1', 3], ['1.0', 1], ['1', 1], ['1.0', 2], ['0', 2], ['-0.0', 1], ['Oxidation', 1],
+                            ['15', 1], ['15.0', 3]])
+    twins = gen.pep_model(alphabet='ACDEGKMST', min_len=3, max_len=10, allow_empty=False, mod_strategy=twin,
+                          mod_list=st.lists(twin, min_size=2, max_size=3, unique_by=lambda m: (m[0], m[1])),
+                          kinds=('internal', 'intervals', 'nterm', 'cterm', 'unknown', 'labile'))
+    return st.fixed_dictionaries({'pep': st.one_of(pm, rich, twins), 'pick': st.lists(st.integers(0, 60), min_size=4, max_size=4),
                                   'all': st.booleans()})
 
 
